@@ -778,6 +778,47 @@ func runC04(c *Ctx) {
 			r.Check("R04.2", FuncName(rtl), "the lines of every cell of the row are fetched, whatever the cell holds", rtl.Pos(), !condCols, "some cells are skipped under a condition: their text never reaches the output")
 		}
 		r.Check("R04.2", FuncName(rtl), "line l, column c of a row is line l of cell c", rtl.Pos(), okCopy, "")
+		// no line of any cell is left out: the grid handed back has at least as many lines as every per-cell record
+		// fetched (its line count is the running maximum of THEIR lengths - a height recorded elsewhere may be smaller
+		// than the number of text lines)
+		{
+			pr := ix.proverFor(rtl)
+			var grid *ssa.MakeSlice
+			for _, ret := range returnsOf(rtl) {
+				if ms, isMS := pr.resolve(results(ret)[0]).(*ssa.MakeSlice); isMS {
+					grid = ms
+				}
+			}
+			nl := 0
+			if grid != nil {
+				eachInstr(rtl, func(in ssa.Instruction) {
+					u, isU := in.(*ssa.UnOp)
+					if !isU || u.Op != token.MUL {
+						return
+					}
+					ia, isIA := u.X.(*ssa.IndexAddr)
+					if !isIA {
+						return
+					}
+					ms, isMS := pr.resolve(ia.X).(*ssa.MakeSlice)
+					if !isMS || ms == grid || !types.Identical(ms.Type(), grid.Type()) {
+						return
+					}
+					// a record of one cell, read back after the records were fetched
+					if h := innermostLoopHeader(u.Block()); h != nil {
+						for _, site := range sliceStoreSites(ms, nil, 0) {
+							if innermostLoopHeader(site.St.Block()) == h {
+								return // still inside the fetching loop: the line count is not final yet
+							}
+						}
+					}
+					nl++
+					okL, _ := pr.prove(leq(pr.lenOf(u), pr.lenOf(grid), "every line of the cell has a line of the grid"), u, nil, 0)
+					r.Check("R04.2", FuncName(rtl), fmt.Sprintf("the grid has a line for every line of the cell record read at #%d", nl), u.Pos(), okL,
+						"the number of lines of the grid is not shown to reach the number of lines of this cell's record: text lines beyond it are dropped")
+				})
+			}
+		}
 		if !okBlank {
 			// no explicit blank store: fine when every line's slice is freshly made (zeroed) for that line alone
 			fresh, n := true, 0
